@@ -64,7 +64,9 @@ def run(ctx, F):
                     desc.append("try_from(multipatch) mapped to MultiPolygon" if good else absint.term_str(p.ret)[:80])
                 else:
                     r = agg_field(p.ret, '0') if is_agg(p.ret, None, 'Ok') else None
-                    good = r is not None and is_agg(r, "geo_types::Geometry", want) and bool(conv) and r[4][0][1] == conv[0][-1]
+                    # the payload converted by exactly one From/Into step, spelled `T::from(x)` (a call) or `x.into()` (the blanket impl)
+                    good = r is not None and is_agg(r, "geo_types::Geometry", want) and (
+                        (bool(conv) and r[4][0][1] == conv[0][-1]) or r[4][0][1] == ('from', payload))
                     desc.append("Geometry::%s(from(payload))" % want if good else absint.term_str(p.ret)[:80])
                 ok = ok and good
             ctx.ob("C20.dispatch", "Shape::%s -> Geometry" % name, ok, "; ".join(sorted(set(desc))), site=ctx.site_of(F, f["def"]),
@@ -91,7 +93,12 @@ def run(ctx, F):
             if not is_agg(shp, "record::Shape") or len(shp[4]) != 1:
                 bad.append("path returns %s" % absint.term_str(p.ret)[:60])
                 continue
-            srcs = [x for x in absint.subterms(shp[4][0][1]) if isinstance(x, tuple) and x and x[0] == 'proj' and x[1] == ('param', 1)
+            inner = shp[4][0][1]
+            # `T::from(x)` is a call whose result is the payload; `x.into()` is the term from(x): look through either
+            for e in p.eff:
+                if e[0] == 'call' and e[-1] == inner and e[3] and len(e[3]) == 1:
+                    inner = e[3][0]
+            srcs = [x for x in absint.subterms(inner) if isinstance(x, tuple) and x and x[0] == 'proj' and x[1] == ('param', 1)
                     and len(x[2]) >= 2 and x[2][0][0] == 'v' and x[2][1] == ('f', '0')]
             gvs = set(x[2][0][1] for x in srcs)
             if len(gvs) != 1:
@@ -299,6 +306,54 @@ def tag_rule(ctx, F):
             return False, "interiors are pushed before the exterior"
         return True, "Outer(exterior), then Inner(interior) for each interior in order"
 
+    def closure_fn(t):
+        return F.fns.get(t[1]) if isinstance(t, tuple) and t and t[0] == 'closure' else None
+
+    def chain_form_single(p):
+        """with_rings(once(Outer(exterior)).chain(interiors.into_iter().map(|r| Inner(r))).collect())"""
+        calls = [e for e in p.eff if e[0] == 'call' and (e[2] or e[1]).endswith('::with_rings')]
+        if len(calls) != 1 or p.ret != calls[0][-1] or not calls[0][3]:
+            return None
+        x = calls[0][3][0]
+        if not (x[0] == 'collect' and x[1][0] == 'chain' and x[1][1][0] == 'once' and x[1][2][0] == 'map'):
+            return None
+        outer, m = x[1][1][1], x[1][2]
+        so = absint.term_str(outer)
+        if not (is_agg(outer, "record::polygon::PolygonRing", "Outer") and '.0.0' in so and 'into_inner' in so):
+            return False, "the ring put first is not Outer(exterior)"
+        its = absint.term_str(m[1])
+        if not (its.startswith('into_iter(') and '.1' in its and not any(w in its for w in ('skip', 'rev', 'take', 'filter'))):
+            return False, "interiors are not iterated whole and in order (%s)" % its[:60]
+        g = closure_fn(m[2])
+        if g is None:
+            return False, "interiors are not mapped by a closure of this crate"
+        for q in absint.Interp(F, inline=helper_only).run(g):
+            if q.status != 'return' or not is_agg(q.ret, "record::polygon::PolygonRing", "Inner") or \
+                    not absint.contains(q.ret, ('param', 2)):
+                return False, "an interior does not become Inner(that interior)"
+        return True, "once(Outer(exterior)).chain(interiors.map(Inner)), collected in order"
+
+    def flat_map_form_multi(p):
+        """with_rings(members.into_iter().flat_map(|m| GenericPolygon::from(m).into_inner()).collect())"""
+        calls = [e for e in p.eff if e[0] == 'call' and (e[2] or e[1]).endswith('::with_rings')]
+        if len(calls) != 1 or p.ret != calls[0][-1] or not calls[0][3]:
+            return None
+        x = calls[0][3][0]
+        if not (x[0] == 'collect' and x[1][0] == 'flat_map'):
+            return None
+        its = absint.term_str(x[1][1])
+        if its != 'into_iter(arg1)':
+            return False, "members are not iterated whole and in order (%s)" % its[:60]
+        g = closure_fn(x[1][2])
+        if g is None:
+            return False, "members are not mapped by a closure of this crate"
+        for q in absint.Interp(F, inline=helper_only).run(g):
+            conv = [e for e in q.eff if e[0] == 'call' and (e[2] or '') == single["def"] and e[3] and e[3][0] == ('param', 2)]
+            inner = [e for e in q.eff if e[0] == 'call' and (e[2] or e[1]).endswith('::into_inner') and conv and e[3] and e[3][0] == conv[0][-1]]
+            if q.status != 'return' or len(conv) != 1 or len(inner) != 1 or q.ret != inner[0][-1]:
+                return False, "a member is not converted on its own by the single-polygon conversion"
+        return True, "each member through the single-polygon conversion (flat_map), rings in member order"
+
     # single polygon
     try:
         ps, _ = util.run_fn(F, single, inline=helper_only)
@@ -307,6 +362,11 @@ def tag_rule(ctx, F):
         ps = []
     good, why = bool(ps), set()
     for p in ps:
+        cf = chain_form_single(p)
+        if cf is not None:
+            good = good and cf[0]
+            why.add(cf[1])
+            continue
         ok, w = member_tagging(list(p.eff), lambda s_: 'into_inner' in s_)
         good = good and ok
         why.add(w)
@@ -324,6 +384,11 @@ def tag_rule(ctx, F):
         ps = []
     good, why = bool(ps), set()
     for p in ps:
+        ff = flat_map_form_multi(p)
+        if ff is not None:
+            good = good and ff[0]
+            why.add(ff[1])
+            continue
         loops = [e for e in p.eff if e[0] == 'loop']
         if len(loops) != 1:
             good = False
